@@ -157,7 +157,9 @@ def check_space_table(ctx):
 
 # ------------------------------------------------------------------ generators
 
-ORIGIN_ALPHABET = [";", "%", "=", ":", "#", "/", "?", "&", "%3B", "%25", "%zz", "%2", "%", "a", "Z", "0", "é", "日", "𝄞", "é", "http://", "x.org", "~", "+", "-", "_", ".", "%41", "%c3%a9", "%ff", "%C3"]
+ORIGIN_ALPHABET = [";", "%", "=", ":", "#", "/", "?", "&", "%3B", "%25", "%zz", "%2", "%", "a", "Z", "0", "é", "日", "𝄞", "é", "http://", "x.org", "~", "+", "-", "_", ".", "%41", "%c3%a9", "%ff", "%C3",
+                   # control characters that are not whitespace (the grammar only excludes whitespace)
+                   "\x00", "\x01", "\x1b", "\x7f", "\x08", "\x0e", "\u200b", "\ufeff", "\x9f"]
 SPACE_SAMPLES = [chr(c) for c in PY_SPACE]
 
 
